@@ -54,10 +54,43 @@ type c23Worker struct {
 	confs   []*c23Conf
 	crypto  *wkprotoenc.SessionCrypto
 	keys    wkprotoenc.SessionKeys
+	// counters are kept per worker and flushed per batch (the Run mutex is
+	// shared by all workers)
+	cnt   map[string]int
+	max   map[string]int
+	evals int
+	// scratch input buffers, reused to keep -race allocation cost down
+	sc [4][]byte
+}
+
+// buf returns scratch buffer i resized to exactly n bytes with capacity n+extra.
+func (w *c23Worker) buf(i, n, extra int) []byte {
+	if cap(w.sc[i]) < n+extra {
+		w.sc[i] = make([]byte, (n+extra)*2+64)
+	}
+	return w.sc[i][: n : n+extra]
+}
+
+func (w *c23Worker) count(k string, n int) { w.cnt[k] += n }
+func (w *c23Worker) maxOf(k string, n int) {
+	if n > w.max[k] {
+		w.max[k] = n
+	}
+}
+func (w *c23Worker) flush() {
+	for k, n := range w.cnt {
+		w.r.Count(k, n)
+		delete(w.cnt, k)
+	}
+	for k, n := range w.max {
+		w.r.Max(k, n)
+	}
+	w.r.Eval(w.evals)
+	w.evals = 0
 }
 
 func c23NewWorker(r *verifkit.Run, id int, adapter *adapterpkg.Adapter) *c23Worker {
-	w := &c23Worker{r: r, id: id, adapter: adapter, proto: codec.New()}
+	w := &c23Worker{r: r, id: id, adapter: adapter, proto: codec.New(), cnt: map[string]int{}, max: map[string]int{}}
 	rng := r.Rand(23, 99, uint64(id))
 	key, iv := make([]byte, 16), make([]byte, 16)
 	for i := range key {
@@ -152,7 +185,7 @@ func (w *c23Worker) buildStream(g *c23Gen, conf *c23Conf, n int, maxLen int) *c2
 			e := c23Project(send, v).(*frame.SendPacket)
 			e.Payload = plain
 			exp = e
-			w.r.Count("valid.encrypted_send_frames", 1)
+			w.count("valid.encrypted_send_frames", 1)
 		}
 		b, err := w.proto.EncodeFrame(f, v)
 		if err != nil {
@@ -176,7 +209,7 @@ func (w *c23Worker) buildStream(g *c23Gen, conf *c23Conf, n int, maxLen int) *c2
 // for ANY input (valid or hostile).
 func (w *c23Worker) decodeCall(conf *c23Conf, buf []byte, kind string, wit func() map[string]any) (frames []frame.Frame, consumed int, err error, bad bool) {
 	r := w.r
-	r.Eval(1)
+	w.evals++
 	if r.Guard("Adapter.Decode:"+kind, c23LazyWitness{wit}, func() { frames, consumed, err = w.adapter.Decode(conf.session(), buf) }) {
 		return nil, 0, nil, true
 	}
@@ -203,7 +236,7 @@ func (w *c23Worker) decodeCall(conf *c23Conf, buf []byte, kind string, wit func(
 		}
 	}
 	if err != nil && (len(frames) > 0 || consumed != 0) {
-		r.Count("interp.error_with_partial_result", 1)
+		w.count("interp.error_with_partial_result", 1)
 	}
 	return
 }
@@ -227,7 +260,7 @@ func c23Hex(b []byte) string {
 func (w *c23Worker) feedValid(st *c23Stream, cuts []int, slack bool, kind string) {
 	r := w.r
 	L := len(st.wire)
-	store := make([]byte, L)
+	store := w.buf(0, L, 0)
 	copy(store, st.wire)
 	start, emitted, calls := 0, 0, 0
 	var sends []int // indices of emitted SEND frames
@@ -290,7 +323,7 @@ func (w *c23Worker) feedValid(st *c23Stream, cuts []int, slack bool, kind string
 					complete++
 				}
 				if emitted < complete {
-					r.Count("interp.not_prompt", 1)
+					w.count("interp.not_prompt", 1)
 				}
 				return true
 			}
@@ -334,10 +367,10 @@ func (w *c23Worker) feedValid(st *c23Stream, cuts []int, slack bool, kind string
 	if aliased > 0 {
 		// RECV.Payload / EVENT.Data are sub-slices of the input; they are
 		// dispatched synchronously, the statement does not forbid it.
-		r.Count("interp.non_send_payload_aliases_input", aliased)
+		w.count("interp.non_send_payload_aliases_input", aliased)
 	}
-	r.Count("valid.feeds."+kind, 1)
-	r.Max("max_decode_calls_per_feed", calls)
+	w.count("valid.feeds."+kind, 1)
+	w.maxOf("max_decode_calls_per_feed", calls)
 }
 
 func c23Cuts(set map[int]struct{}, L int) []int {
@@ -385,8 +418,8 @@ func (w *c23Worker) smallBatch(bi int, perBatch int) {
 			}
 		}
 		w.r.Nontrivial(fmt.Sprintf("small|%s|%s|L%d", conf.name, st.types, L))
-		w.r.Count("valid.small_streams", 1)
-		w.r.Count("valid.frames", len(st.exp))
+		w.count("valid.small_streams", 1)
+		w.count("valid.frames", len(st.exp))
 		if w.r.WantSample() && k == 0 && bi < 2 {
 			w.r.Sample(map[string]any{"kind": "small valid stream, all 1- and 2-cut splits", "session": conf.name, "types": st.types, "stream": c23Hex(st.wire), "bounds": st.bounds})
 		}
@@ -452,9 +485,9 @@ func (w *c23Worker) largeBatch(bi int, perBatch int) {
 			lc = "m"
 		}
 		w.r.Nontrivial(fmt.Sprintf("large|%s|%s|%s", conf.name, st.types, lc))
-		w.r.Count("valid.large_streams", 1)
-		w.r.Count("valid.frames", len(st.exp))
-		w.r.Max("max_stream_len", L)
+		w.count("valid.large_streams", 1)
+		w.count("valid.frames", len(st.exp))
+		w.maxOf("max_stream_len", L)
 	}
 }
 
@@ -599,13 +632,44 @@ func c23HostileInput(rng *rand.Rand, base *c23Stream) (string, []byte) {
 	}
 }
 
+// c23WaitUnjustified: "waits for more data" is only a legitimate answer when
+// more data can complete a frame. Judged with the harness's own header parse
+// (standard 1..4 byte varint); returns "" when the wait is justified or the
+// header is outside what that parse defines.
+func c23WaitUnjustified(in []byte) string {
+	if len(in) == 0 {
+		return ""
+	}
+	ft := frame.FrameType(in[0] >> 4)
+	if ft == frame.UNKNOWN {
+		return "" // counted separately
+	}
+	if ft == frame.PING || ft == frame.PONG {
+		return "complete-one-byte-frame"
+	}
+	if len(in) > 1+5+int(codec.MaxRemaingLength) {
+		return "holds-more-than-a-maximal-frame"
+	}
+	_, _, rem, hdr, ok := c23ParseHeader(in)
+	if !ok {
+		return "" // length prefix unterminated so far, or a 5+-byte varint (undefined by the parse)
+	}
+	if rem > int(codec.MaxRemaingLength) {
+		return "oversize-remaining-length"
+	}
+	if hdr+rem <= len(in) {
+		return "declared-frame-complete"
+	}
+	return ""
+}
+
 // hostileOne applies the arbitrary-bytes clauses to one input on one session.
 func (w *c23Worker) hostileOne(rng *rand.Rand, conf *c23Conf, kind string, in []byte) {
 	r := w.r
 	wit := func() map[string]any { return map[string]any{"session": conf.name, "input": c23Hex(in), "kind": kind} }
 
 	// (A) whole buffer, capacity == length: any access past the input faults
-	exact := make([]byte, len(in))
+	exact := w.buf(1, len(in), 0)
 	copy(exact, in)
 	fa, ca, ea, bad := w.decodeCall(conf, exact[:len(exact):len(exact)], kind, wit)
 	if bad {
@@ -613,12 +677,23 @@ func (w *c23Worker) hostileOne(rng *rand.Rand, conf *c23Conf, kind string, in []
 	}
 	switch {
 	case ea != nil:
-		r.Count("hostile.outcome.error", 1)
+		w.count("hostile.outcome.error", 1)
 	case ca > 0:
-		r.Count("hostile.outcome.frames", 1)
-		r.Count("hostile.frames_decoded", len(fa))
+		w.count("hostile.outcome.frames", 1)
+		w.count("hostile.frames_decoded", len(fa))
 	default:
-		r.Count("hostile.outcome.wait", 1)
+		w.count("hostile.outcome.wait", 1)
+		if why := c23WaitUnjustified(in); why != "" {
+			m := wit()
+			m["why"] = why
+			r.Violation("wait-not-justified:"+why, m)
+			return
+		}
+		if len(in) > 0 && in[0]>>4 == 0 {
+			// type nibble 0 (UNKNOWN): DecodeFrame answers "need more data"
+			// for ever. Allowed by the statement's trichotomy; evidence only.
+			w.count("interp.type0_waits_forever", 1)
+		}
 	}
 	// the decoder did not write into its input
 	if !bytes.Equal(exact, in) {
@@ -628,7 +703,7 @@ func (w *c23Worker) hostileOne(rng *rand.Rand, conf *c23Conf, kind string, in []
 
 	// (B) same bytes with poison in the spare capacity: a result that depends
 	// on bytes behind len(in) means the decoder read past its input
-	slack := make([]byte, len(in), len(in)+48)
+	slack := w.buf(2, len(in), 48)
 	copy(slack, in)
 	poison := slack[len(in):cap(slack)]
 	for i := range poison {
@@ -658,7 +733,7 @@ func (w *c23Worker) hostileOne(rng *rand.Rand, conf *c23Conf, kind string, in []
 
 	// (C) frames reported as consumed are decodable from exactly those bytes
 	if ea == nil && ca > 0 {
-		pre := make([]byte, ca)
+		pre := w.buf(3, ca, 0)
 		copy(pre, in[:ca])
 		fc, cc, ec, bad := w.decodeCall(conf, pre, kind, wit)
 		if bad {
@@ -691,10 +766,14 @@ func (w *c23Worker) hostileOne(rng *rand.Rand, conf *c23Conf, kind string, in []
 
 	// (D) streamed in random chunks with the core's loop; step counter
 	if len(in) > 0 {
-		store := make([]byte, len(in))
+		store := w.buf(0, len(in), 0)
 		copy(store, in)
 		var cuts []int
-		switch rng.IntN(3) {
+		mode := rng.IntN(3)
+		if mode == 0 && len(in) > 256 {
+			mode = 1
+		}
+		switch mode {
 		case 0:
 			cuts = c23Dribble(len(in))
 		case 1:
@@ -719,7 +798,7 @@ func (w *c23Worker) hostileOne(rng *rand.Rand, conf *c23Conf, kind string, in []
 					return
 				}
 				if e != nil {
-					r.Count("hostile.stream.error", 1)
+					w.count("hostile.stream.error", 1)
 					break feed
 				}
 				if c == 0 {
@@ -728,7 +807,7 @@ func (w *c23Worker) hostileOne(rng *rand.Rand, conf *c23Conf, kind string, in []
 				start += c
 			}
 		}
-		r.Max("max_hostile_decode_calls", calls)
+		w.maxOf("max_hostile_decode_calls", calls)
 	}
 
 	// (E) the codec's DecodeFrame driven like pkg/client.readerLoop (non-empty buffer, advance by n)
@@ -741,7 +820,7 @@ func (w *c23Worker) hostileOne(rng *rand.Rand, conf *c23Conf, kind string, in []
 		var f frame.Frame
 		var n int
 		var err error
-		r.Eval(1)
+		w.evals++
 		if r.Guard("DecodeFrame:"+kind, c23LazyWitness{wit}, func() { f, n, err = w.proto.DecodeFrame(buf, conf.eff) }) {
 			return
 		}
@@ -756,7 +835,7 @@ func (w *c23Worker) hostileOne(rng *rand.Rand, conf *c23Conf, kind string, in []
 		}
 		buf = buf[n:]
 	}
-	r.Count("hostile.inputs."+kind, 1)
+	w.count("hostile.inputs."+kind, 1)
 }
 
 func (w *c23Worker) hostileBatch(bi int, perBatch int) {
@@ -769,7 +848,7 @@ func (w *c23Worker) hostileBatch(bi int, perBatch int) {
 		if base == nil || base.conf != conf || k%4 == 0 {
 			g.tiny = rng.IntN(5) != 0
 			g.maxPayload = 300
-			base = w.buildStream(g, conf, 1+rng.IntN(4), 2000)
+			base = w.buildStream(g, conf, 1+rng.IntN(4), 1500)
 		}
 		kind, in := c23HostileInput(rng, base)
 		w.hostileOne(rng, conf, kind, in)
@@ -801,7 +880,7 @@ func TestVerifC23(t *testing.T) {
 	}
 
 	// trivia: empty input and nil receivers must be a clean "wait"
-	r.BeginCase(0, "empty inputs")
+	r.BeginCase(0, "empty inputs and >1 MiB runs")
 	if !r.Skip(0) {
 		for _, conf := range workers[0].confs {
 			for _, in := range [][]byte{nil, {}} {
@@ -811,6 +890,21 @@ func TestVerifC23(t *testing.T) {
 				}
 			}
 		}
+		// a decoder may never sit on more than a maximal frame: runs of
+		// continuation bytes / zero bytes longer than 1 MiB + header
+		big := make([]byte, 1+5+int(codec.MaxRemaingLength)+64)
+		for _, fill := range []byte{0x80, 0xff, 0x81} {
+			for i := range big {
+				big[i] = fill
+			}
+			for _, ft := range []frame.FrameType{frame.CONNECT, frame.SEND, frame.RECVACK, frame.EVENT, 13, 15} {
+				big[0] = byte(ft) << 4
+				for _, conf := range []*c23Conf{workers[0].confs[0], workers[0].confs[len(workers[0].confs)-1], workers[0].confs[3]} {
+					workers[0].hostileOne(r.Rand(23, 4, uint64(fill), uint64(ft)), conf, "huge-run", big)
+				}
+			}
+		}
+		workers[0].flush()
 		// recorded, not asserted: the codec entry point itself has a non-empty precondition
 		func() {
 			defer func() {
@@ -830,15 +924,15 @@ func TestVerifC23(t *testing.T) {
 	}
 	var jobs []job
 	idx := 1
-	for bi := 0; bi < r.N(40, 600); bi++ {
+	for bi := 0; bi < r.N(24, 200); bi++ {
 		jobs = append(jobs, job{idx, 1, bi})
 		idx++
 	}
-	for bi := 0; bi < r.N(60, 1000); bi++ {
+	for bi := 0; bi < r.N(40, 320); bi++ {
 		jobs = append(jobs, job{idx, 2, bi})
 		idx++
 	}
-	for bi := 0; bi < r.N(150, 3000); bi++ {
+	for bi := 0; bi < r.N(80, 800); bi++ {
 		jobs = append(jobs, job{idx, 3, bi})
 		idx++
 	}
@@ -863,6 +957,7 @@ func TestVerifC23(t *testing.T) {
 					r.BeginCase(j.idx, fmt.Sprintf("hostile batch %d", j.bi))
 					w.hostileBatch(j.bi, 2000)
 				}
+				w.flush()
 			}
 		}(workers[wi])
 	}
